@@ -305,14 +305,18 @@ func (s Server) Serve(c context.Context, conn network.Conn) (err error) {
 
 			if continueReadingRequest {
 				zw = ctx.GetWriter()
-				// Send 'HTTP/1.1 100 Continue' response.
-				_, err = zw.WriteBinary(bytestr.StrResponseContinue)
-				if err != nil {
-					return
-				}
-				err = zw.Flush()
-				if err != nil {
-					return
+				// Send 'HTTP/1.1 100 Continue' response. (Not to an HTTP/1.0 client: it
+				// does not know interim responses and would take this one for the answer;
+				// the expectation is ignored for it, RFC 7231 5.1.1, its body is read.)
+				if ctx.Request.Header.IsHTTP11() {
+					_, err = zw.WriteBinary(bytestr.StrResponseContinue)
+					if err != nil {
+						return
+					}
+					err = zw.Flush()
+					if err != nil {
+						return
+					}
 				}
 
 				// Read body.
